@@ -151,6 +151,11 @@ def _gen_collection(rnd, reparse_safe, with_seq, chunk):
                     cb = rnd.randrange(ca + 3, n + 1)
                     cds = cds_blocks(tb, st, ca, cb)
                     frames = list(_consistent_frames(cds, st, rnd.choice([0, 0, 1, 2])))
+                    # (not on a sequence chunk: chunk-relative frames are documented to assume an uninterrupted frame)
+                    if len(cds) > 1 and not chunk and rnd.random() < 0.3:
+                        # annotated frames that do NOT follow from the block lengths (the documented way to model an
+                        # indel / programmed frameshift): all zero, or arbitrary -- they are data, and must come back
+                        frames = [0] * len(cds) if rnd.random() < 0.5 else [rnd.randrange(3) for _ in cds]
                 ttype = gtype if (reparse_safe and rnd.random() < 0.7) else rnd.choice([Biotype.protein_coding, Biotype.lncRNA,
                                                                                          Biotype.ncRNA])
                 txs.append(mk_tx(tb, st, cds, None, frames=frames, parent=par, transcript_id="tx%d_%d" % (gi, ti),
